@@ -29,6 +29,18 @@ StartsOf(r, d, ch) == LET RECURSIVE F(_, _)
 
 Strip(e) == <<e[2], e[4], e[5], e[6], e[7], e[8]>>          \* tick, kind, channel, data, payload: no track, no delta
 
+\* ------------------------------------------------------------------ the limit of the file format
+\* A delta time of a Standard MIDI File is a variable-length quantity of at most four bytes: 2^28 - 1 ticks.  A piece whose
+\* whole length fits one delta time can always be written, so it must be; beyond that crd may refuse -- with a message, a
+\* non-zero status and no output (r.refused) -- and whatever it does write must still be right (a 5-byte delta, or ticks
+\* that wrapped round, are violations like any other).  T is crd's 960 here: a refused run has no header to read it from.
+MaxDelta == 268435455
+WithinLimit(d) == LET RECURSIVE F(_, _)
+                      F(i, acc) == IF i > Len(d) THEN TRUE
+                                   ELSE LET t == Lo(960, d[i]) + 1 IN t <= MaxDelta - acc /\ F(i + 1, acc + t)
+                  IN F(1, 0)
+RefusedOk(r, d) == r.refused /\ ~WithinLimit(d)
+
 \* ------------------------------------------------------------------ C01
 C01Ok(r) == LET d == Eff(r.doc, r.flags)  cidx == ChordIdxOf(d)  ticks == StrikeTicks(r.ev) IN
          /\ WellFormedInput(d)                \* the driver generated what it claims
@@ -58,7 +70,8 @@ VoiceOk(s) == LET on == IdxWhere(s, IsOn)  off == IdxWhere(s, IsOff) IN
           \A a \in 1..Len(on) : s[on[a]][2] = s[off[j]][2] => on[a] > off[j]
 SpansOf(s) == LET on == IdxWhere(s, IsOn)  off == IdxWhere(s, IsOff) IN
               {<<s[on[j]][2], s[off[j]][2]>> : j \in 1..Len(on)}
-C02Ok(r) == LET d == Eff(r.doc, r.flags)  cidx == ChordIdxOf(d)
+C02Written(r) ==
+         LET d == Eff(r.doc, r.flags)  cidx == ChordIdxOf(d)
              notes == SelectSeq2(r.ev, IsNote)
              voices == Voices(notes) IN
          /\ r.ok /\ r.ok1
@@ -68,15 +81,20 @@ C02Ok(r) == LET d == Eff(r.doc, r.flags)  cidx == ChordIdxOf(d)
                                                    got == UNION {SpansOf(VoiceSeq(notes, v)) : v \in voices} IN
               got = want          \* strikes at the instance start (first instance at 0), releases at its end; rests silent; gapless
 
+C02Ok(r) == RefusedOk(r, Eff(r.doc, r.flags)) \/ C02Written(r)
+
 \* ------------------------------------------------------------------ C06
 Merged(ev) == LET s == SelectSeq2(ev, LAMBDA e : ~IsEOT(e)) IN BagOfSeq([j \in 1..Len(s) |-> Strip(s[j])])
-C06Ok(r) == LET d == Eff(r.doc, r.flags)  eots == SelectSeq2(r.ev, IsEOT)  eots1 == SelectSeq2(r.ev1, IsEOT) IN
+C06Written(r) ==
+         LET d == Eff(r.doc, r.flags)  eots == SelectSeq2(r.ev, IsEOT)  eots1 == SelectSeq2(r.ev1, IsEOT) IN
          /\ r.ok /\ r.ok1
          /\ Merged(r.ev) = Merged(r.ev1)                        \* same events at the same ticks, whatever the distribution
          /\ Len(eots) = r.tracks /\ Len(eots1) = 1
          /\ \E ch \in Choices(r.division, d) : LET total == StartsOf(r, d, ch)[Len(d) + 1] IN
               /\ \A j \in 1..r.tracks : eots[j][2] = total     \* every track ends when the piece ends
               /\ eots1[1][2] = total
+
+C06Ok(r) == RefusedOk(r, Eff(r.doc, r.flags)) \/ C06Written(r)
 
 \* ------------------------------------------------------------------ C07
 DynRank(s) == CASE s = "pp" -> 1 [] s = "p" -> 2 [] s = "mp" -> 3 [] s = "mf" -> 4 [] s = "f" -> 5 [] s = "ff" -> 6 [] OTHER -> 0
